@@ -8,6 +8,9 @@ Cases:
   {"kind": "prefix", "file": <shipped basename>, "ks": "all" | "sample"}
   {"kind": "prefix", "ops": [...], "ks": "all"}
         every byte prefix of a complete file.
+  {"kind": "empty", "ops": [setters..., ["x"]]}
+        a session closed before any record (count undeclared: "Closing an empty file"; or declared): whatever is
+        on disk afterwards must be rejected by GroFile(path); compared with the model (errors, bytes, verdict).
 """
 import hashlib
 import os
@@ -20,8 +23,10 @@ RULE = ("crash: valid writer sessions (1..40 records, velocities on/off, count d
         "any client op, incl. the three writes inside close (count back-fill, lattice text, terminator); plus a few "
         "sessions outside the quantifier (more records than declared, numeric names) compared with the model only. "
         "prefix: EVERY byte prefix of every shipped .gro (quick: files <= 20 kB; thorough: <= 100 kB) and of generated "
-        "complete files with/without velocities. Non-trivial = every crash point / prefix evaluated on a file with "
-        ">= 1 atom; distinct by canonical hash of the case.")
+        "complete files with/without velocities. empty: sessions of setters only followed by close() (count "
+        "undeclared / declared 0 / declared k; also abandoned without close): the file left behind must be rejected. "
+        "Non-trivial = every crash point / prefix evaluated on a file with "
+        ">= 1 atom and every empty-session case; distinct by canonical hash of the case.")
 
 
 def generate(ctx):
@@ -58,6 +63,19 @@ def generate(ctx):
         if rng.random() < 0.5:
             ops = ops[:-1]
         yield {"kind": "crash", "ops": ops, "valid": False}
+    # sessions closed before any record
+    for pre in ([], [["c", "t"]], [["n", 0]], [["n", 3]], [["f", 9, 4], ["b3", [1.0, 2.0, 3.0]]]):
+        yield {"kind": "empty", "ops": pre + [["x"]]}
+    for i in range(ctx.n(60, 1000)):
+        ops = [o for o in G.gen_valid_session(rng, nrec=1) if o[0] not in ("w", "n")]
+        j = rng.randrange(4)
+        if j == 1:
+            ops.insert(rng.randrange(len(ops)), ["n", 0])
+        elif j == 2:
+            ops.insert(rng.randrange(len(ops)), ["n", rng.randint(1, 5)])
+        elif j == 3:
+            ops = ops + [["x"]]
+        yield {"kind": "empty", "ops": ops}
     for n in ([100000] if ctx.quick() else [99999, 100000, 100001, 250000]):
         yield {"kind": "big", "n": n}
     files = G.shipped_gro_files()
@@ -405,7 +423,57 @@ def _eval_big(ctx, case):
     os.unlink(path)
 
 
+def _eval_empty(ctx, case):
+    """a writer session without any record, closed (or closed twice): the reader must reject what is left"""
+    ops = case["ops"]
+    path = os.path.join(ctx.scratch, f"c14-empty-{ctx.evaluations % 3}.gro")
+    ppath = os.path.join(ctx.scratch, "c14-empty-reread.gro")
+    errs, data, _ = G.run_session(path, ops)
+    os.unlink(path)
+    decl = [o[1] for o in ops if o[0] == "n"]
+    kind = "undeclared" if not decl else ("declared-0" if decl[-1] == 0 else "declared-k")
+    ctx.case(case, nontrivial=True, sample={"kind": "empty", "ops": ops[:4], "count": kind})
+    close_err = next((e for o, e in zip(ops, errs) if o[0] == "x"), None)
+    ctx.count(f"empty-session:{kind}:close-" + (close_err or "ok"))
+    ctx.count("empty-session:bytes-written" if data else "empty-session:nothing-written")
+    v, _ = _verdict(ppath, data)
+    ctx.oracle_ok()
+    if v[0] != "E":
+        ctx.oracle_fail(f"empty-session-accepted:{kind}", case, {"bytes": data, "verdict": v[:2]})
+    else:
+        ctx.count("empty-session-rejected-" + v[1])
+    # the same session abandoned instead of closed
+    body = [o for o in ops if o[0] != "x"]
+    apath = os.path.join(ctx.scratch, "c14-abandoned.gro")
+    adata = G.run_abandoned(apath, body)
+    os.unlink(apath)
+    va, _ = _verdict(ppath, adata)
+    ctx.oracle_ok()
+    if va[0] != "E":
+        ctx.oracle_fail(f"empty-session-accepted:abandoned:{kind}", case, {"bytes": adata, "verdict": va[:2]})
+
+    def cb(status, toks, case, errs=errs, data=data):
+        t = G.Toks(toks)
+        merrs = [t.next() for _ in range(t.int())]
+        merrs = [None if e == "-" else e for e in merrs]
+        mbytes = t.bytes().encode("latin-1")
+        if merrs != errs:
+            ctx.disagree(case, "exceptions raised by the ops of an empty session", errs, merrs)
+        elif mbytes != data:
+            ctx.disagree(case, "bytes left by an empty session", data.decode("latin-1"), mbytes.decode("latin-1"))
+    ctx.model.ask("gro_write", G.ops_tokens(ops), cb, case)
+
+    def cb2(status, toks, case, v=v):
+        m = G.parse_read_response(status, toks)
+        mv = ("E", m["open_err"]) if "open_err" in m else ("A",)
+        if mv[:2] != v[:2]:
+            ctx.disagree(case, "reader verdict on the file of an empty session", v[:2], mv)
+    ctx.model.ask("gro_read", hexs(data), cb2, case)
+
+
 def evaluate(ctx, case):
+    if case["kind"] == "empty":
+        return _eval_empty(ctx, case)
     if case["kind"] == "big":
         return _eval_big(ctx, case)
     if case["kind"] == "crash":
